@@ -594,4 +594,38 @@ theorem layoutTrunc_fits (cols row : Int) (l : List Item) (col : Int) :
       · simp only [Item.cell]; omega
       · exact ih _ o h
 
+/-! ### one call per cluster, for the word-wrapping layout -/
+
+theorem layout_end_col_nonneg (cols : Int) (l : List Item) (col row : Int) (hcol : 0 ≤ col)
+    (hw : ∀ it ∈ l, 0 ≤ it.w) : 0 ≤ (layout cols l col row).2.1 := by
+  induction l generalizing col row with
+  | nil => exact hcol
+  | cons it rest ih =>
+    have hw' : ∀ it' ∈ rest, 0 ≤ it'.w := fun a h => hw a (List.mem_cons_of_mem _ h)
+    have h0 := hw it List.mem_cons_self
+    by_cases hb : it.brk = true
+    · rw [layout_cons_brk _ _ _ _ _ hb]; exact ih 0 (row + 1) (Int.le_refl _) hw'
+    · have hb' : it.brk = false := by simpa using hb
+      by_cases hs : col + it.w > cols ∧ it.w > cols
+      · rw [layout_cons_skipped _ _ _ _ _ hb' hs]; exact ih col row hcol hw'
+      · rw [layout_cons_placed _ _ _ _ _ hb' hs]
+        obtain ⟨qc, qr, pc, pr, hq, hp, hqc, hpc⟩ := step_cases cols col row it.w
+        rw [hq]; simp only [hp]
+        exact ih pc pr (by omega) hw'
+
+theorem layoutWrap_cells (cols : Int) (L : List (List Item)) (col row : Int) (hcol : 0 ≤ col)
+    (hw : ∀ seg ∈ L, ∀ it ∈ seg, 0 ≤ it.w) :
+    (layoutWrap cols L col row).1.map (·.cell) =
+      (L.flatten.filter (fun it => !it.brk && decide (it.w ≤ cols))).map Item.cell := by
+  induction L generalizing col row with
+  | nil => rfl
+  | cons seg rest ih =>
+    have hseg := hw seg List.mem_cons_self
+    have hrest : ∀ s ∈ rest, ∀ it ∈ s, 0 ≤ it.w := fun s h => hw s (List.mem_cons_of_mem _ h)
+    simp only [layoutWrap, List.flatten_cons, List.filter_append, List.map_append]
+    generalize hp : (if totalW seg ≤ cols ∧ totalW seg + col > cols then ((0 : Int), row + 1) else (col, row)) = p
+    have hp1 : 0 ≤ p.1 := by rw [← hp]; split <;> simp <;> omega
+    rw [layout_cells cols seg p.1 p.2 hp1 hseg,
+      ih _ _ (layout_end_col_nonneg cols seg p.1 p.2 hp1 hseg) hrest]
+
 end VaxisModel.Lemmas.WindowText
